@@ -1992,10 +1992,19 @@ def r5_template_compile_state_rebound(ctx, rid):
                                              f"and re-wire edges/outputs", facts, label=f"self.{attr} is re-bound per compilation")
 
 
+
+def r6_stale_layout_dropped_before_use(ctx, rid):
+    """The state-vector layout that get_run_func/get_jacobian_func leave on a template is history: run() must drop it on the
+    object it actually simulates before it computes output positions (same rule as C06-R4)."""
+    from .c06 import r4_positions_inside_backend_variable
+    r4_positions_inside_backend_variable(ctx, rid)
+
+
 RULES = [
     ("C13-R1", r1_inventory, 25),
     ("C13-R2", r2_cache_keys, 5),
     ("C13-R3", r3_reset_before_use, 6),
     ("C13-R4", r4_registry_copies, 3),
     ("C13-R5", r5_template_compile_state_rebound, 2),
+    ("C13-R6", r6_stale_layout_dropped_before_use, 3),
 ]
